@@ -34,6 +34,11 @@ from worlds.decsnap import GLOBAL_QUERIES, captured_print, first_difference, jso
 from worlds.decworld import construct
 
 CUSTOM_MODELS = ["MYMODEL", "XYZ_MODEL-2", "SIG_AMP"]
+KILL_TARGETS = ["parse", "_find_parsed_decays", "_check_parsed_decays", "_add_decays_to_be_copied", "_add_charge_conjugate_decays",
+                "_is_not_self_conj", "particle", "model", "model_options", "_replacement", "build_decay_chains", "_find_decay_modes",
+                "_decay_mode_details", "print_decay_modes", "expand_decay_modes", "_expand_decay_modes", "list_decay_modes",
+                "get_model_parameters", "get_final_state_particle_names", "find_charge_conjugate_match", "get_lineshape_settings",
+                "get_particle_property_definitions", "to_string", "format_descriptor"]
 SIZE_LIMIT = 4000
 PATH_LIMIT = 200
 
@@ -624,7 +629,7 @@ def run_session(case: dict) -> dict:
                         except Exception:
                             pass
                     kk = max(1, math.ceil(op["frac"] * inj0.count))
-                    inj = Injector(kk)
+                    inj = Injector(int(op["k"]), op["target"]) if op.get("target") else Injector(kk)
                     with warnings.catch_warnings():
                         warnings.simplefilter("ignore")
                         try:
@@ -653,7 +658,7 @@ def run_session(case: dict) -> dict:
                     got, cats, raw = inj0.run(run_query, insts[i], inner, True)
                     compare(i, inner, rk, got, cats, f"step {step} (counted run)")
                     kk = max(1, math.ceil(op["frac"] * inj0.count))
-                    inj = Injector(kk)
+                    inj = Injector(int(op["k"]), op["target"]) if op.get("target") else Injector(kk)
                     try:
                         inj.run(run_query, insts[i], inner)
                     except SimFault:
@@ -800,7 +805,12 @@ def gen_session(rng: random.Random, cfg: dict | None = None) -> dict:
                 inner = a_query(i)
             # half of the kills land anywhere, half late in the call (after work has been done, before it is finished)
             frac = rng.random() if rng.random() < 0.5 else 1.0 - 0.4 * rng.random() ** 2
-            ops.append({"op": "interrupt", "inner": inner, "frac": round(frac, 4)})
+            op_ = {"op": "interrupt", "inner": inner, "frac": round(frac, 4)}
+            if rng.random() < 0.3:
+                # placement by phase: the k-th line event inside one named function of the parser
+                op_["target"] = rng.choice(KILL_TARGETS)
+                op_["k"] = int(10 ** rng.uniform(0.0, 1.5))
+            ops.append(op_)
         elif k == "checkpoint":
             ops.append({"op": "checkpoint", "p": i})
         elif k == "reparse":
